@@ -22,7 +22,7 @@ func (p *watPrinter) printFuncs() error {
 		}
 
 		if fn.ExportName != "" {
-			fmt.Fprintf(p.w, " (export %q)", fn.ExportName)
+			fmt.Fprintf(p.w, " (export %s)", watPrinter_quote(fn.ExportName))
 		}
 
 		if len(fn.Type.Params) > 0 {
@@ -719,6 +719,21 @@ func watPrinter_printFuncs_body_ins(
 	case token.INS_F64_REINTERPRET_I64:
 		fmt.Fprintln(w, tok)
 	}
+}
+
+// watPrinter_quote 生成 WAT 字符串面值: 引号/反斜杠/非可打印 ASCII 字节用 \hh 转义
+func watPrinter_quote(s string) string {
+	var sb strings.Builder
+	sb.WriteByte('"')
+	for i := 0; i < len(s); i++ {
+		if c := s[i]; c >= 0x20 && c < 0x7f && c != '"' && c != '\\' {
+			sb.WriteByte(c)
+		} else {
+			fmt.Fprintf(&sb, "\\%02x", c)
+		}
+	}
+	sb.WriteByte('"')
+	return sb.String()
 }
 
 func watPrinter_identOrIndex(idOrIdx string) string {
